@@ -147,6 +147,11 @@ pub(crate) fn get_full_command(
 fn main() -> ! {
     let argv: Vec<OsString> = std::env::args_os().collect();
 
+    #[cfg(stgit_verif)]
+    if argv.get(1).is_some_and(|arg| arg == "verif-eval") {
+        patch::verif::eval_main()
+    }
+
     // Chicken and egg: the --color option must be parsed from argv in order to setup
     // clap with the desired color choice. So a simple pre-parse is performed just to
     // get the color choice.
